@@ -44,6 +44,10 @@ DESCS = [
     ("T154-R97 Sec 14: N/2NE/4NE/4", "parse_qq,qq_depth.1"), ("T154-R97 Sec 14: S/2NW/4NE/4", "parse_qq,break_halves,w"),
     ("TIS4N-R97W Sec 14: NE/4", ""), ("Township lS4 North, Range 97 West Sec 14: NE, SW", "parse_qq"), ("T154N-R97W Sec 14: NE, SW", "parse_qq"),
 ]
+# (used by the object_history op only; kept apart so that the probe numbering stays as it is)
+HISTORY_DESCS = DESCS + [("T154N-R97W Sec 14: NE/4\nT155N-R98W W/2 of Sec 22", "segment"),
+                         ("T154N-R97W Sec 14: NE/4. T155N-R97W NW/4 of Section 16", "segment,parse_qq"),
+                         ("That part of T154N-R97W Sec 14: NE/4, T155N-R97W Sec 1: ALL", "segment,sec_within")]
 TRACTS = [("NE/4", ""), ("Lots 1, 1, N/2 of Lot 3", "parse_qq"), ("NE, SW", "parse_qq,clean_qq"), ("N/2SW/4, Lots 5 - 1", "parse_qq,qq_depth_min.3"),
           ("ALL", "parse_qq,qq_depth.1"), ("N/2 of Lot 1", "parse_qq,suppress_lot_divs")]
 TRS_STRS = ["154n97w14", "154n97w15", "154n97w1", "1154n97w14", "154nXXXz14", "XXXzXXXzXX", "", "___z___z__", "154N97W14", "1s1e01", "154n97w",
@@ -185,6 +189,7 @@ OP = st.one_of(
     # one Config object per description, shared by every object built for it in this history
     st.tuples(st.just("use_shared_config"), st.integers(0, len(DESCS) - 1), st.booleans(), st.sampled_from(["plss", "tract"])),
     st.tuples(st.just("probe_shared_config"), st.integers(0, len(DESCS) - 1)),
+    st.tuples(st.just("shared_config_attribute_changed"), st.integers(0, 5), st.integers(0, 3), st.booleans()),
     # one object parsed several times with one-off keyword overrides (committed or not), then plainly: keywords do not outlive their call
     st.tuples(st.just("object_history"), st.sampled_from(["plss", "tract"]), st.integers(0, 40),
               st.lists(st.tuples(st.booleans(), st.integers(0, 7)), min_size=1, max_size=3)),
@@ -322,9 +327,10 @@ def oracle(c):
             elif name == "object_history":
                 ns, ew = MasterConfig.default_ns, MasterConfig.default_ew
                 if op[1] == "plss":
-                    j = op[2] % len(DESCS)
-                    text, cfg = DESCS[j]
+                    j = op[2] % len(HISTORY_DESCS)
+                    text, cfg = HISTORY_DESCS[j]
                     obj = PLSSDesc(text, config=cfg)
+                    label = PROBES[j] if j < len(DESCS) else ["plss", text, cfg]
                     bad_step = None
                     for commit, k in op[3]:
                         ov = OV_PLSS[k % len(OV_PLSS)]
@@ -339,11 +345,16 @@ def oracle(c):
                             break
                     if bad_step:
                         fails.append(Failure("history_dependence:same_object_plss:intermediate",
-                                             f"step {i}: {PROBES[j]} parsed before, then parse(commit={bad_step[1]}, {bad_step[0]}) returns {json.dumps(bad_step[2])[:300]}, a new object given the same call returns {json.dumps(bad_step[3])[:300]}",
-                                             probe=PROBES[j], ops=c["ops"][:i + 1]))
+                                             f"step {i}: {label} parsed before, then parse(commit={bad_step[1]}, {bad_step[0]}) returns {json.dumps(bad_step[2])[:300]}, a new object given the same call returns {json.dumps(bad_step[3])[:300]}",
+                                             probe=label, ops=c["ops"][:i + 1]))
                         break
                     obj.parse()
-                    want = REFERENCE[(ns, ew, j)]
+                    if j < len(DESCS):
+                        want = REFERENCE[(ns, ew, j)]
+                    else:
+                        new = PLSSDesc(text, config=cfg)
+                        want = _norm({"pp": new.pp_desc, "layout": new.current_layout, "flags": sorted(map(str, new.flags)),
+                                      "tracts": [[x.trs, x.desc, list(x.lots), list(x.qqs), sorted(map(str, x.flags)), x.twp_num, x.rge_ew] for x in new.tracts]})
                     got = _norm({"pp": obj.pp_desc, "layout": obj.current_layout, "flags": sorted(map(str, obj.flags)),
                                  "tracts": [[x.trs, x.desc, list(x.lots), list(x.qqs), sorted(map(str, x.flags)), x.twp_num, x.rge_ew] for x in obj.tracts]})
                     jj = j
@@ -353,6 +364,7 @@ def oracle(c):
                     if "parse_qq" not in cfg.split(","):
                         continue
                     jj = TRACT_PROBE[k0]
+                    label = PROBES[jj]
                     obj = Tract(desc, trs="154n97w14", config=cfg)
                     for commit, k in op[3]:
                         obj.parse(commit=commit, **OV_TRACT[k % len(OV_TRACT)])
@@ -363,8 +375,8 @@ def oracle(c):
                     field = next((kk for kk in want if got.get(kk) != want[kk]), "?")
                     steps = [("parse" if cm else "dry run") + f" {(OV_PLSS if op[1] == 'plss' else OV_TRACT)[k % len(OV_PLSS if op[1] == 'plss' else OV_TRACT)]}" for cm, k in op[3]]
                     fails.append(Failure(f"history_dependence:same_object_{op[1]}:{field}",
-                                         f"step {i}: {PROBES[jj]} after {steps} and a plain parse() gives {json.dumps(got)[:300]}, a fresh interpreter gives {json.dumps(want)[:300]}",
-                                         probe=PROBES[jj], ops=c["ops"][:i + 1]))
+                                         f"step {i}: {label} after {steps} and a plain parse() gives {json.dumps(got)[:300]}, a fresh interpreter gives {json.dumps(want)[:300]}",
+                                         probe=label, ops=c["ops"][:i + 1]))
                     break
             elif name == "deduce_layout_candidates":
                 import itertools
@@ -444,6 +456,38 @@ def oracle(c):
                             [t.to_dict("trs", "lots", "qqs", "lot_acres") for t in d.tracts], TRSList(d).to_strings(),
                             d.tracts.to_standard_list()):
                     _poison(out)
+                # the object the mutated containers came from, parsed again with the same text and settings: as a new object
+                d.parse_tracts()
+                again = [[t.trs, t.desc, list(t.lots), list(t.qqs), dict(t.lot_acres), list(t.aliquots_whole)] for t in d.tracts]
+                new = PLSSDesc(text, config=cfg)
+                new.parse_tracts()
+                want_again = [[t.trs, t.desc, list(t.lots), list(t.qqs), dict(t.lot_acres), list(t.aliquots_whole)] for t in new.tracts]
+                if again != want_again:
+                    fails.append(Failure("history_dependence:reparse_after_outputs_mutated", f"step {i}: {text!r} [{cfg}]: after the caller changed the containers its conversion methods returned, "
+                                         f"parse_tracts() on the same object gives {json.dumps(again)[:300]}, a new object gives {json.dumps(want_again)[:300]}", ops=c["ops"][:i + 1]))
+                    break
+            elif name == "shared_config_attribute_changed":
+                # one Config object: used for a parse, then a setting of it is set directly, then used again - as a new Config that says the same
+                attr, val, as_text = [("suppress_lot_divs", True, "suppress_lot_divs"), ("clean_qq", True, "clean_qq"), ("break_halves", True, "break_halves"),
+                                      ("qq_depth_min", 1, "qq_depth_min.1"), ("qq_depth", 3, "qq_depth.3"), ("suppress_lot_divs", False, "suppress_lot_divs.False")][op[1] % 6]
+                base = ["", "qq_depth_max.3", "suppress_lot_divs", "parse_qq"][op[2] % 4]
+                body = "N/2 of Lot 1, NE, E/2W/2"
+                cobj = Config(base)
+                if op[3]:
+                    str(cobj)
+                    cobj.decompile_to_text()
+                PLSSDesc("T154N-R97W Sec 14: " + body, config=cobj, parse_qq=True)
+                setattr(cobj, attr, val)
+                same = Config(",".join(x for x in (base, as_text) if x))
+                for how, mk in (("PLSSDesc", lambda cf: PLSSDesc("T154N-R97W Sec 14: " + body, config=cf, parse_qq=True).tracts[0]), ("Tract", lambda cf: Tract(body, config=cf, parse_qq=True)),
+                                ("Config(copy)", lambda cf: Tract(body, config=Config(cf), parse_qq=True))):
+                    g, w = mk(cobj), mk(same)
+                    if (list(g.lots), list(g.qqs)) != (list(w.lots), list(w.qqs)):
+                        fails.append(Failure("history_dependence:config_object_used_before_attribute_set", f"step {i}: Config({base!r}) used for a parse, then .{attr} = {val!r}: a {how} built from it gives "
+                                             f"{g.lots} {g.qqs}, one built from Config({same.decompile_to_text()!r}) gives {w.lots} {w.qqs}", ops=c["ops"][:i + 1]))
+                        break
+                if fails:
+                    break
             elif name == "mutate_config":
                 text, cfg = DESCS[op[1]]
                 cobj = Config(cfg)
@@ -523,7 +567,7 @@ SUBS = [
     Sub("histories", oracle, strategy=lambda tier: CASE, nontrivial=lambda c: bool(_last.get("nt")), classes=classes, render=lambda c: c,
         n={"quick": 1500, "thorough": 12000}, shards={"quick": 8, "thorough": 16},
         essential=("op=probe", "op=set_master", "op=clear_cache", "op=cache_off", "op=prewarm", "op=mutate_trs_dict", "op=mutate_outputs",
-                   "op=under_defaults", "op=create_deferred", "op=parse_deferred", "op=use_shared_config", "op=probe_shared_config", "op=tract_dry_run_first", "op=object_history", "op=deduce_layout_candidates", "nontrivial")),
+                   "op=under_defaults", "op=create_deferred", "op=parse_deferred", "op=use_shared_config", "op=probe_shared_config", "op=shared_config_attribute_changed", "op=tract_dry_run_first", "op=object_history", "op=deduce_layout_candidates", "nontrivial")),
     Sub("after_any_parse", oracle_any, strategy=lambda tier: ANY_CASE, nontrivial=lambda c: bool(c["cfg"]) or bool(c["follow"]),
         classes=lambda c: _parsing.text_classes(c) + [f"follow={f}" for f in c["follow"]], render=lambda c: dict(_parsing.render(c), follow=c["follow"]),
         n={"quick": 700, "thorough": 8000}, shards={"quick": 6, "thorough": 16}, text_keys=("text",),
